@@ -15,10 +15,16 @@
 (*     that failed or was skipped, and for a task queued after Stop returned *)
 (*  E5 Wait returns nil iff no executed task failed and Stop was not called  *)
 (*     before; otherwise the error of an executed failing task (or the stop  *)
-(*     error when Stop was called); nothing is running when Wait returns     *)
+(*     error when Stop was called); nothing is running when Wait returns.    *)
+(*     "waiting always returns the first error": where the order in which    *)
+(*     errors are recorded is observable (rec_begin/rec_end events of the    *)
+(*     hook-based runs) Wait returns the error of the first task that        *)
+(*     recorded one, the stop error when Stop returned before any failure    *)
+(*     began to be recorded, and never the stop error when the first failure *)
+(*     was completely recorded before Stop was called                        *)
 (*  "without deadlock": the driver's watchdog logs "hang", which no action   *)
 (*  explains.                                                                *)
-EXTENDS Naturals, FiniteSets
+EXTENDS Naturals, FiniteSets, Sequences
 
 CONSTANTS MaxN, KeyIds        \* task ids 1..MaxN, key ids
 
@@ -30,9 +36,15 @@ VARIABLES perm,      \* [TaskIds -> [KeyIds -> {"n","r","w"}]]   declared keys (
           lateQ,     \* tasks handed to Run after Stop had returned
           stop,      \* "idle","called","returned"
           wait,      \* "no","called","nil","err","stopped"
-          stopFirst  \* Stop had returned before Wait was called
+          stopFirst, \* Stop had returned before Wait was called
+          recs,      \* order in which failing tasks recorded their error (observable only with the yield hooks)
+          recDone,   \* failing tasks whose recording is complete
+          stopAtFirstRec,   \* value of stop when the first failure began to be recorded
+          firstDoneAtStop   \* the first failure was completely recorded when Stop was called
 
-evars == <<perm, ntasks, queued, started, ended, failed, lateQ, stop, wait, stopFirst>>
+evars == <<perm, ntasks, queued, started, ended, failed, lateQ, stop, wait, stopFirst, recs, recDone, stopAtFirstRec,
+          firstDoneAtStop>>
+rvars == <<recs, recDone, stopAtFirstRec, firstDoneAtStop>>
 
 Conflict(a, b) == \E k \in KeyIds : perm[a][k] # "n" /\ perm[b][k] # "n" /\ (perm[a][k] = "w" \/ perm[b][k] = "w")
 Running == started \ ended
@@ -41,6 +53,7 @@ EInit(p, n) ==
   /\ perm = p /\ ntasks = n
   /\ queued = {} /\ started = {} /\ ended = {} /\ failed = {} /\ lateQ = {}
   /\ stop = "idle" /\ wait = "no" /\ stopFirst = FALSE
+  /\ recs = <<>> /\ recDone = {} /\ stopAtFirstRec = "idle" /\ firstDoneAtStop = FALSE
 
 \* Run(i) is about to be called: tasks are queued in increasing order, never after Wait
 RunCall(i) ==
@@ -48,7 +61,7 @@ RunCall(i) ==
   /\ wait = "no"
   /\ queued' = queued \cup {i}
   /\ lateQ' = IF stop = "returned" THEN lateQ \cup {i} ELSE lateQ
-  /\ UNCHANGED <<perm, ntasks, started, ended, failed, stop, wait, stopFirst>>
+  /\ UNCHANGED <<perm, ntasks, started, ended, failed, stop, wait, stopFirst, rvars>>
 
 Start(i) ==
   /\ i \in queued
@@ -58,19 +71,36 @@ Start(i) ==
   /\ \A a \in 1..(i - 1) : Conflict(a, i) => a \in ended /\ a \notin failed        \* E2, E4
   /\ \A b \in Running : ~Conflict(b, i)                                            \* E1
   /\ started' = started \cup {i}
-  /\ UNCHANGED <<perm, ntasks, queued, ended, failed, lateQ, stop, wait, stopFirst>>
+  /\ UNCHANGED <<perm, ntasks, queued, ended, failed, lateQ, stop, wait, stopFirst, rvars>>
 
 End(i, res) ==
   /\ i \in Running
   /\ ended' = ended \cup {i}
   /\ failed' = IF res = "fail" THEN failed \cup {i} ELSE failed
-  /\ UNCHANGED <<perm, ntasks, queued, started, lateQ, stop, wait, stopFirst>>
+  /\ UNCHANGED <<perm, ntasks, queued, started, lateQ, stop, wait, stopFirst, rvars>>
 
-StopCall == stop = "idle" /\ stop' = "called" /\ UNCHANGED <<perm, ntasks, queued, started, ended, failed, lateQ, wait, stopFirst>>
-StopRet  == stop = "called" /\ stop' = "returned" /\ UNCHANGED <<perm, ntasks, queued, started, ended, failed, lateQ, wait, stopFirst>>
+StopCall == /\ stop = "idle" /\ stop' = "called"
+            /\ firstDoneAtStop' = (recs # <<>> /\ recs[1] \in recDone)
+            /\ UNCHANGED <<perm, ntasks, queued, started, ended, failed, lateQ, wait, stopFirst, recs, recDone, stopAtFirstRec>>
+StopRet  == stop = "called" /\ stop' = "returned"
+            /\ UNCHANGED <<perm, ntasks, queued, started, ended, failed, lateQ, wait, stopFirst, rvars>>
+
+\* With the executor's yield hooks the driver's scheduler decides when a failing task passes the point just before it
+\* records its error, lets only one task at a time through it, and logs rec_begin(i) before resuming the task and
+\* rec_end(i) when the task reached its next yield point: the error of task i is recorded inside that interval.
+RecBegin(i) ==
+  /\ i \in failed /\ \A k \in DOMAIN recs : recs[k] # i /\ recs[k] \in recDone
+  /\ recs' = Append(recs, i)
+  /\ stopAtFirstRec' = IF recs = <<>> THEN stop ELSE stopAtFirstRec
+  /\ UNCHANGED <<perm, ntasks, queued, started, ended, failed, lateQ, stop, wait, stopFirst, recDone, firstDoneAtStop>>
+RecEnd(i) ==
+  /\ recs # <<>> /\ recs[Len(recs)] = i /\ i \notin recDone
+  /\ recDone' = recDone \cup {i}
+  /\ UNCHANGED <<perm, ntasks, queued, started, ended, failed, lateQ, stop, wait, stopFirst, recs, stopAtFirstRec,
+                 firstDoneAtStop>>
 
 WaitCall == /\ wait = "no" /\ wait' = "called" /\ stopFirst' = (stop = "returned")
-            /\ UNCHANGED <<perm, ntasks, queued, started, ended, failed, lateQ, stop>>
+            /\ UNCHANGED <<perm, ntasks, queued, started, ended, failed, lateQ, stop, rvars>>
 
 \* res: "nil" | "err" (error of task ei) | "stopped"
 WaitRet(res, ei) ==
@@ -78,9 +108,12 @@ WaitRet(res, ei) ==
   /\ Running = {}
   /\ \/ /\ res = "nil" /\ started = queued /\ failed = {} /\ ~stopFirst               \* E3 E5
      \/ /\ res = "err" /\ ei \in failed                                              \* E5
+        /\ recs # <<>> => ei = recs[1]                                                  \* E5 the FIRST recorded failure
+        /\ ~(recs # <<>> /\ stopAtFirstRec = "returned")                                \* E5 Stop had won already
      \/ /\ res = "stopped" /\ stop # "idle"                                          \* E5
+        /\ ~firstDoneAtStop                                                            \* E5 a failure had won already
   /\ wait' = res
-  /\ UNCHANGED <<perm, ntasks, queued, started, ended, failed, lateQ, stop, stopFirst>>
+  /\ UNCHANGED <<perm, ntasks, queued, started, ended, failed, lateQ, stop, stopFirst, rvars>>
 
 Fin == wait \in {"nil", "err", "stopped"} /\ stop # "called" /\ UNCHANGED evars
 
